@@ -316,9 +316,24 @@ def rule_r4(ctx: Ctx) -> None:
     ctx.check(not bad and bool(used), "_serdes (decoder functions)", "reader interface used: %s" % sorted(set().union(*used.values())) if used else "?", "decoding must not bypass the limit-aware primitives", "pydsdl/_serdes.py", bad)
 
 
+def rule_r5(ctx: Ctx) -> None:
+    """two revisions of a type compare equal when name, version and length set agree - which is exactly what a same-extent
+    revision of a delimited type preserves - so nothing the codec uses may be memoised by type *equality*"""
+    from .c07 import memoised_functions
+
+    ctx.rule("C14.R5", "the codec and the type model hold no memo keyed by type equality (two revisions of an appendable type with the same extent compare equal and would share the entry)", min_instances=1)
+    found = []
+    mods = ["_serdes"] + sorted(m.name[len("pydsdl."):] for m in ctx.repo.modules.values() if m.name.startswith("pydsdl._serializable."))
+    for short in mods:
+        found.extend(memoised_functions(ctx, short))
+    ctx.count(len(mods))
+    ctx.check(not found, "_serdes, _serializable.*", "no equality-keyed memo (%d modules)" % len(mods), "what is (de)serialized is decided by the schema object given, not by an equal-comparing one seen earlier", "pydsdl/_serdes.py", found)
+
+
 def run(ctx: Ctx) -> None:
     ctx.attempt(rule_r1, ctx)
     ctx.attempt(rule_r2_r3, ctx)
     ctx.attempt(rule_r4, ctx)
+    ctx.attempt(rule_r5, ctx)
     ctx.assume("offset accounting of read_bits / bounded_subreader (C07.R3, C07.R5) and the composite alignment of 8 (C02.R4)")
     ctx.undecided("field-value preservation across revisions for all pairs and values (numerical)")
